@@ -1456,6 +1456,15 @@ class Simulation:
         # and the weights).
         _ = self.misfit
 
+        # Keep the actual residual, gradient, and back-propagated fields; they
+        # are restored afterwards, jtvec should not alter the simulation.
+        keep = {'residual': self.data.residual.data.copy(),
+                '_gradient': self._gradient}
+        for name in ['_dict_bfield', '_dict_bfield_info']:
+            if hasattr(self, name):
+                keep[name] = getattr(self, name)
+                delattr(self, name)
+
         # Replace residual by provided vector
         # (division by weight is undone in gradient).
         with np.errstate(invalid='ignore'):  # (For division by cplx-NaN.)
@@ -1463,12 +1472,19 @@ class Simulation:
 
         # Reset gradient, so it will be computed.
         self._gradient = None
+
+        # Get gradient from weighted residual `vector`.
+        jtvec = self.gradient
+
+        # Restore the actual residual, gradient, and back-propagated fields.
+        self.data.residual[...] = keep.pop('residual')
         for name in ['_dict_bfield', '_dict_bfield_info']:
             if hasattr(self, name):
                 delattr(self, name)
+        for name, value in keep.items():
+            setattr(self, name, value)
 
-        # Return gradient from weighted residual `vector`.
-        return self.gradient
+        return jtvec
 
     # UTILS
     @property
